@@ -1,4 +1,3 @@
-import Lean.Elab.Term
 /-!
 # C07 — entry type of the generated access table
 
@@ -13,14 +12,18 @@ inductive Kind where
   | mutableMember   -- data member declared `mutable` in a class reachable from a shared root
   | constCast       -- `const_cast` in a file implementing such a class
   | constPathCall   -- non-const member function invoked through a pointer member from a const member function
+  | lazyContainer   -- XalanList / XalanMap / XalanSet member (lazily allocated list head) of a class that is part of a shared object;
+                    -- `funcs` = the const member functions that use it, preceded by "@forced" when the constructor /
+                    -- postConstruction (or a member function they call) calls its non-const begin()/end()
   | localStatic     -- non-const function-local static in such a file
   | globalVar       -- non-const static data member / file-scope static (process-wide state)
 deriving DecidableEq, Repr
 
 structure Entry where
   /-- the text `kind|scope|name` read as a base-256 number (UTF-8 bytes, big endian).  The kernel compares these
-  numbers instead of strings (`decide` over string equality is ~10 ms per comparison; over `Nat` it is free);
-  `xm_c07 selftest` re-derives every key from the strings. -/
+  numbers instead of strings (`decide` over string equality is ~10 ms per comparison; over `Nat` it is free).  The translator
+  writes the numerals, for the table and for the classification; `xm_c07 selftest` re-derives every table key from
+  the strings. -/
   key : Nat
   kind : Kind
   /-- class name, or file (relative to src/xalanc) -/
@@ -35,6 +38,7 @@ def Kind.toString : Kind → String
   | .mutableMember => "mutableMember"
   | .constCast => "constCast"
   | .constPathCall => "constPathCall"
+  | .lazyContainer => "lazyContainer"
   | .localStatic => "localStatic"
   | .globalVar => "globalVar"
 
@@ -44,10 +48,57 @@ def encodeKey (s : String) : Nat :=
 
 def Entry.keyText (e : Entry) : String := e.kind.toString ++ "|" ++ e.scope ++ "|" ++ e.name
 
-open Lean Elab Term in
-/-- `key% "kind|scope|name"` elaborates to the numeral `encodeKey "kind|scope|name"` (computed at elaboration
-time, so the kernel never has to evaluate string functions) -/
-elab "key% " s:str : term => do
-  return mkNatLit (encodeKey s.getString)
+/-- why a write channel is harmless, or under which condition -/
+inductive Guard where
+  /-- every instance is owned by one thread: execution contexts, XObjects and their factories, the per-transformer
+  ICU functors, stack proxies, exception objects (XalanTransformer.cpp:100-135, doTransform 1237-1390) -/
+  | perExecution
+  /-- only runs while a stylesheet is compiled / a source is parsed, i.e. before the object is shared -/
+  | constructionOnly
+  /-- XercesDocumentWrapper's lazily filled members: after the constructor they are written only by
+  `createWrapperNode`, reached from `mapNode` only `if (m_mappingMode == true)` (XercesDocumentWrapper.cpp:155-171);
+  `m_mappingMode = threadSafe ? false : !buildWrapper` (line 91) -/
+  | wrapperPrebuilt
+  /-- `XercesDocumentWrapper::getPooledString` → `m_stringPool->get`: the pool is the mutex-protected
+  `XercesLiaisonXalanDOMStringPool` iff `threadSafe` (XercesDocumentWrapper.cpp:99) -/
+  | pooledStringMutex
+  /-- the mutex itself -/
+  | isMutex
+  /-- process-wide state written only by `initialize()` / `terminate()` / the `*Init` counters -/
+  | initTerminate
+  /-- process-wide state written only by global install/uninstall/set calls that the documentation reserves for
+  single-threaded phases (installExternalFunctionGlobal, installXalanNumberFormatFactory, setPoolAllTextNodes) -/
+  | installOnly
+  /-- declared non-const but never assigned after its definition -/
+  | neverWritten
+  /-- the cast adds `const`, or removes it only to reach a non-mutating overload (iterators of XalanMap/XalanDeque) -/
+  | castNoWrite
+  /-- runs only in the owning thread outside shared execution (destroy*, reset, terminate, delete functors) -/
+  | ownerOnly
+  /-- (the tree before `fix:` c994d6f) `XalanList::getListHead() const` → `const_cast<XalanList*>(this)->getListHead()`, which ALLOCATES the head node
+  when `m_listHead == 0` (Include/XalanList.hpp): a const `begin()/end()` on a never-used list, or a const
+  `find()` on a never-used XalanMap, writes.  Harmless only if the head of every list inside a shared object was
+  created before the object is shared (Stylesheet's constructor does this on purpose: Stylesheet.cpp:106,109;
+  XalanSourceTreeDocument's constructors since `fix:` d0cd23c: createMapListHeads()). -/
+  | lazyListHead
+  /-- (lazyContainer) the head of this container is created before the object is shared: the constructor or
+  postConstruction calls its non-const `begin()`/`end()` — checked against the "@forced" marker the translator derives
+  from the source (`guardEvidence`) -/
+  | headForced
+  /-- (lazyContainer) no const member function of the class uses the container — checked: `funcs = []` -/
+  | noConstLookup
+  /-- (lazyContainer) every const lookup is preceded by an `empty()` test that does not touch the list
+  (`NamespacesHandler::getNamespaceAlias`, NamespacesHandler.cpp:362) -/
+  | emptyChecked
+  /-- (constCast) a const overload that only forwards to the non-const function (`const_cast<X*>(this)->f()`) and that no
+  const member function calls: the translator puts the const callers into the entry's name (`…|const-callers:none`), so a
+  new caller is a new, unclassified entry -/
+  | noConstCaller
+  /-- (lazyContainer) since `fix:` c994d6f the const `begin()/end()` of `XalanList` (hence `find()` of `XalanMap`/`XalanSet`)
+  return a null iterator for a list that never held an element and allocate nothing.  Valid exactly while
+  `XalanList::getListHead() const` has no const caller — `guardEvidence` requires the table to contain that very entry -/
+  | listConstNoAlloc
+deriving DecidableEq, Repr
+
 
 end XalanModel.C07
